@@ -14,6 +14,7 @@ import ModVerif.Proofs.ModfileC20Stmts
 import ModVerif.Proofs.ModfileC20Lax
 import ModVerif.Proofs.ModfileC20Ignore
 import ModVerif.Proofs.ModfileC20ModFinal
+import ModVerif.Proofs.ModfileC20Comment
 namespace ModVerif.Props.C20
 open ModVerif ModVerif.Modfile
 
@@ -351,5 +352,39 @@ example :
     (match parseToFile (B "go.mod") x none true with
      | .ok f => decide (f.module.map (·.mod.path) = some (modulePath x))
      | .error _ => false) = true := by decide +kernel
+
+/-! ### towards the exact `Line.end` statement of `pos_consistent`: whole-line comment tokens (lexer level) -/
+
+/-- **A `//` comment that follows a token on its source line is an end-of-line comment, never a whole-line comment token.**
+    `readComment` decides with `strings.TrimSpace(<bytes before the comment on its line>) == ""`; that test fails as soon as
+    the consumed part of the line is `g ++ x` with `g` white space and `x` starting with a rune that is not white space —
+    whatever follows in `x`, ill-formed UTF-8 included (`TrimSpace s = "" ↔ Fields s = []`,
+    `Edit.trimSpace_eq_nil_iff_fields`; no reasoning about the backward decoder of `TrimRight` is needed).  This is the
+    lexer half of the residual slack of `pos_consistent` for `Line.end` (lean/PENDING.md): only a whole-line comment token
+    has its LF / CRLF stripped by `endToken`.  What is still missing is the parser half: carrying "the current source line
+    already holds a token" through `parseStmtLoop` / `parseLineLoop`. -/
+theorem comment_after_token_is_eol_comment (i i' : Input) (g x : Bytes) (h : readToken i = .ok i')
+    (hpre : (i.consumedRev.takeWhile (· != 10)).reverse = g ++ x) (hg : Proofs.ModfileFmtTrim.SpaceSeq g) (hx : x ≠ [])
+    (hs : UnicodePrint.isSpace (Utf8.decodeRune x).1 = false) : i'.token.kind ≠ .comment :=
+  Proofs.ModfileC20.readToken_not_comment h g x hpre hg hx hs
+
+/-- … and a whole-line comment token is delivered only when the bytes before it on its source line trim to nothing -/
+theorem comment_token_alone_on_line (i i' : Input) (h : readToken i = .ok i') (hk : i'.token.kind = .comment) :
+    ∃ gap, Proofs.ModfileC20.WS gap ∧
+      GoStrings.trimSpace (((gap.reverse ++ i.consumedRev).takeWhile (· != 10)).reverse) = [] :=
+  Proofs.ModfileC20.readToken_comment h hk
+
+/-- non-vacuity: after `x\x80 ` (a token ending in an ill-formed byte) the comment is an end-of-line comment; at the start
+    of a line it is a whole-line comment token -/
+example :
+    (match readToken { consumedRev := [32, 0x80, 120, 9, 10], remaining := [47, 47, 99] } with
+     | .ok i => i.token.kind == .eolComment
+     | .error _ => false) = true ∧
+    (match readToken { consumedRev := [32, 9, 10], remaining := [47, 47, 99] } with
+     | .ok i => i.token.kind == .comment
+     | .error _ => false) = true := by decide +kernel
+
+example : (([32, 0x80, 120, 9, 10] : Bytes).takeWhile (· != 10)).reverse = [9] ++ [120, 0x80, 32] ∧
+    UnicodePrint.isSpace (Utf8.decodeRune ([120, 0x80, 32] : Bytes)).1 = false := by decide +kernel
 
 end ModVerif.Props.C20
